@@ -11,7 +11,8 @@ Definition old_skeleton : skeleton :=
        true true
        true true true true
        false false false false
-       false true.
+       false true
+       false.
 
 (* ---------------------------------------------------------------------------------------------------------- *)
 (* handlers list: lookup / update                                                                              *)
@@ -627,15 +628,20 @@ Lemma mon_nil : forall hs ts a s r n k st, mon (mkR hs ts a s r n k (rhist st)) 
 Proof. reflexivity. Qed.
 
 Lemma MInv_step : forall sk st l st' m,
-    sk_notify_key_unique sk = true -> Inv st -> mon st = Some m -> MInv st m ->
+    sk_notify_key_unique sk = true -> sk_cancel_negative_ignored sk = true ->
+    Inv st -> mon st = Some m -> MInv st m ->
     rstep sk st l = Some st' -> exists m', mon st' = Some m' /\ MInv st' m'.
 Proof.
-  intros sk st l st' m Hu Hi Hm HM H.
-  unfold rstep in H; rewrite ?Hu in H.
+  intros sk st l st' m Hu Hc Hi Hm HM H.
+  unfold rstep in H; rewrite ?Hu, ?Hc in H.
   step_cases H;
     first [ rewrite (mon_cons _ _ _ _ _ _ _ _ _ _ Hm)
           | rewrite (mon_app _ _ _ _ _ _ _ _ _ _ Hm)
           | rewrite mon_nil, Hm ]; simpl; try (frame_simple HM; fail).
+  - (* RInCancel, negative seqno: the frame is dropped, the receive goroutine reads on *)
+    eexists; split; [reflexivity|].
+    eapply MInv_frame; [exact HM | hs_ext_tac | simpl; intros; auto; try discriminate ..].
+    match goal with Hq : memz _ _ = true |- _ => rewrite Hq end. apply orb_true_r.
   - (* RInCancel *)
     eexists; split; [reflexivity|].
     eapply MInv_frame; [exact HM | hs_ext_tac | simpl; intros; auto ..].
@@ -683,10 +689,11 @@ Proof.
     eapply MInv_frame; [exact HM | hs_ext_tac | simpl; intros; rewrite ?R1, ?P1 in *; auto ..].
 Qed.
 
-Lemma mon_run : forall sk ls st, sk_notify_key_unique sk = true -> run (rstep sk) rinit ls = Some st ->
+Lemma mon_run : forall sk ls st,
+    sk_notify_key_unique sk = true -> sk_cancel_negative_ignored sk = true -> run (rstep sk) rinit ls = Some st ->
     Inv st /\ exists m, mon st = Some m /\ MInv st m.
 Proof.
-  intros sk ls st Hu H.
+  intros sk ls st Hu Hc H.
   eapply (invariant_run _ _ (rstep sk) (fun s => Inv s /\ exists m, mon s = Some m /\ MInv s m)); [| |exact H].
   - intros s l s' [Hi (m & Hm & HM)] Hs. split; [eapply Inv_step; eauto|].
     eapply MInv_step; eauto.
@@ -696,10 +703,31 @@ Qed.
 
 (* C09, first half *)
 Theorem recv_c09_only_own : forall sk ls st,
-    sk_notify_key_unique sk = true -> run (rstep sk) rinit ls = Some st -> c09_only_own (rtrace st) = true.
+    sk_notify_key_unique sk = true -> sk_cancel_negative_ignored sk = true ->
+    run (rstep sk) rinit ls = Some st -> c09_only_own (rtrace st) = true.
 Proof.
-  intros sk ls st Hu H. destruct (mon_run _ _ _ Hu H) as [_ (m & Hm & _)].
+  intros sk ls st Hu Hc H. destruct (mon_run _ _ _ Hu Hc H) as [_ (m & Hm & _)].
   unfold c09_only_own, accepts. unfold mon in Hm. rewrite Hm. reflexivity.
+Qed.
+
+(* without the guard a cancellation frame naming -1 cancels the first notification's handler: nobody cancelled it *)
+Definition unguarded_skeleton : skeleton :=
+  mkSk true true true  true true true  true true
+       true true true  true true true  true true true
+       true true true true
+       true true
+       true true true true
+       true true true true
+       true true
+       false.
+
+Theorem recv_negative_cancel_refuted : exists sk ls st,
+    sk_notify_key_unique sk = true /\ sk_cancel_negative_ignored sk = false /\
+    run (rstep sk) rinit ls = Some st /\ c09_only_own (rtrace st) = false.
+Proof.
+  exists unguarded_skeleton, [RInNotify; RBeginRv; RInCancel (-1); RCancelRv].
+  eexists. split; [reflexivity|]. split; [reflexivity|].
+  split; [vm_compute; reflexivity | vm_compute; reflexivity].
 Qed.
 
 Print Assumptions recv_c09_only_own.
@@ -707,5 +735,6 @@ Print Assumptions recv_close_cancels_all.
 Print Assumptions recv_taskloop_exits_only_after_stop.
 Print Assumptions recv_no_goroutine_stuck.
 Print Assumptions recv_c09_shared_key_refuted.
+Print Assumptions recv_negative_cancel_refuted.
 Print Assumptions recv_shared_key_close_refuted.
 Print Assumptions recv_taskend_bare_parks_forever.
